@@ -3,6 +3,16 @@
 ZSTD = "zstd crate: decompress(compress(x)) = x and context-history independence (exercised, not proved)"
 
 PROPS = {
+    "C09": {
+        "level": "proof",
+        "assumptions": [
+            "Model/LzDiff.lean mirrors lz_diff.rs (new/prepare/encode/decode, linear-probing index, MurMur64, f64 table sizing) "
+            "with unbounded integers (u32/i64 ranges of positions and lengths not modelled: sequences < 2^31); tied by byte "
+            "equality of encode and decode on exhaustive small domains, random/mutation-derived pairs and token streams",
+            "the theorems hold for every candidate supplier; that the real index never proposes a position whose k-mer "
+            "leaves the padded reference (model result `none`) is checked by the correspondence run, not proved",
+        ],
+    },
     "C20": {
         "level": "proof",
         "assumptions": [
